@@ -17,7 +17,7 @@ RULE = ('relabelling equivariance: for a seeded scenario S and a byte permutatio
         'Second oracle: a rule set that needs only 7-bit characters gives equal logs when built with -7 and with -8 on 7-bit input, and flex '
         'exits non-zero for an 8-bit pattern under -7.  distinct = event-log hash, non-trivial = >= 2 tokens and the swapped byte occurs in the input')
 TIERS = {
-    'quick': {'scenarios': 32, 'inputs': 5, 'wall_cap': 600},
+    'quick': {'scenarios': 64, 'inputs': 6, 'wall_cap': 600},
     'thorough': {'scenarios': 700, 'inputs': 10, 'wall_cap': 3300},
 }
 COMPONENTS = sb.COMPONENTS
@@ -118,10 +118,23 @@ def compare_twins(ra, rb, perm):
     return []
 
 
-def gen_scn(rng):
+def gen_scn(rng, idx=0):
     feats = ['nul'] if rng.random() < 0.7 else ['high']
-    sc = scenario.gen_scenario(rng, want={'feats': tuple(feats)}, forbid=('vtrail',))
+    # table representations are stratified over the scenario index: each one is visited
+    tables = scenario.TABLE_OPTS[idx % len(scenario.TABLE_OPTS)]
+    sc = scenario.gen_scenario(rng, want={'feats': tuple(feats), 'flavors': ['nr', 'nr', 'r', 'r', 'c99'], 'tables': tables}, forbid=('vtrail',))
     sc.buf_size = None
+    # matches that END on the special byte, with a longer rule that continues after it: the scanner must
+    # remember the position after the NUL as its back-up point
+    special = 0 if 0 in sc.alphabet else max(sc.alphabet)
+    plain = [b for b in sc.alphabet if b != special and b != 10] or [97]
+    if rng.random() < 0.6:
+        for _ in range(rng.randint(1, 3)):
+            x = bytes(rng.choice(plain) for _ in range(rng.randint(1, 2)))
+            y = bytes(rng.choice(plain) for _ in range(rng.randint(1, 3)))
+            conds = []
+            sc.rules.insert(0, scenario.Rule(pat=rx.lit(x + bytes([special]) + y), conds=conds))
+            sc.rules.insert(0, scenario.Rule(pat=rx.lit(x + bytes([special])), conds=conds))
     return sc
 
 
@@ -173,7 +186,7 @@ def work(ctx, idx):
     rng = ctx.rng('scn', idx)
     if idx % 5 == 4:
         return work_sevenbit(ctx, idx, wr)
-    sc = gen_scn(rng)
+    sc = gen_scn(rng, idx)
     perm = choose_perm(rng, sc)
     tw = scenario.relabel_scenario(sc, perm)
     ba = ctx.build(sc)
